@@ -937,7 +937,10 @@ class OmniParser(PVLParser):
                         )
                         return module, False  # return through parse_module()
                 else:
+                    # Not something that can be fixed here, so also
+                    # signal the caller that it should ignore us.
                     tokens.send(t)
+                    raise Exception
             else:
                 # The next token isn't an equals sign or the module is
                 # empty, so we want return the token and signal
